@@ -23,10 +23,10 @@
    order contains the calls of every finished thread in program order, and what a thread reported are the results of its
    own sections; no configuration is reached in which unfinished threads all wait for the mutex (C03_no_call_blocks_for_ever),
    and code that touches the links runs only under the mutex (C03_sections_run_under_the_mutex).  Traversals of the machine are covered too (C03_finished_traversals_visit_what_stayed:
-   CLTrav's invariant carried along every run).  NOT mechanised: that the order of visits is list order at the level of the
-   machine (it is at the level of CLTrav's events, C03_traversal_visits_in_list_order), real-time order beyond the shape of
-   the code (C03_section_inside_call), the EventDispatcher's map of lists (tie A: lock scopes), and data-race freedom of the
-   real code (ThreadSanitizer in the thorough tier). *)
+   CLTrav's invariant carried along every run).  The visits follow list order (C03_visits_follow_list_order).  The order respects real time (C03_real_time_order_is_respected).  The dispatcher is a family of such lists, one per event
+   (C03_dispatcher_is_a_family_of_lists: at the granularity of its sections; the instruction-level machine is for one list).
+   NOT mechanised: an instruction-level machine for the dispatcher's two-level locking (listenerMutex, then the list's mutex:
+   tie A lists the scopes), and data-race freedom of the real code (ThreadSanitizer in the thorough tier). *)
 From Coq Require Import List Arith NArith ZArith Bool.
 From EV Require Import CLModel CLHeap CLConcProofs CLConc CLConcTrav CLConcProj.
 From EV.gen Require GenCL.
@@ -120,6 +120,22 @@ Theorem C03_finished_traversals_visit_what_stayed :
 Proof. exact finished_traversals_visit_what_stayed. Qed.
 Print Assumptions C03_finished_traversals_visit_what_stayed.
 
+(* list order of the visits, in the machine: at every visit the machine checks (ghost) that every node the traversal
+   visited earlier and that is still in the list — as a walk from head through next finds it — stands before the node it
+   is visiting now, and raises lunord otherwise; unless the counter wrapped the flag is never raised *)
+Theorem C03_visits_follow_list_order :
+  forall progs sch fuel,
+    let s := fst (lrun fuel ls0 (lstart progs) sch) in
+    ~ wrapped s -> lunord s = false.
+Proof. exact visits_follow_list_order. Qed.
+Print Assumptions C03_visits_follow_list_order.
+
+Example C03_order_flag_can_be_set :
+  list_ids (lgrp two_appends) = [0; 1] /\
+  lunord (fst (ladvance 3 0 two_appends (mkLT (loop_body None) [] (mkLL None 0 None (Some 0) 5%N false [1] false 2 0 0) false None))) = true /\
+  lunord (fst (ladvance 3 0 two_appends (mkLT (loop_body None) [] (mkLL None 0 None (Some 1) 5%N false [0] false 2 0 0) false None))) = false.
+Proof. exact order_flag_can_be_set. Qed.
+
 Example C03_traversal_in_the_machine_example :
   let r := lrun 600 ls0 (lstart trav_progs) trav_sched in
   let s := fst r in
@@ -130,6 +146,33 @@ Example C03_traversal_in_the_machine_example :
   secs_of s = [SBack 1 1; SBack 2 2; SBack 3 3; SRemove (Some 1); SBack 4 4] /\
   filter (fun a => match a with LaCall _ _ _ => true | _ => false end) (rev (llog s)) = [LaCall 0 1 7; LaCall 0 3 7].
 Proof. exact traversal_example. Qed.
+
+(* real-time order.  Every finished call is recorded by the ghost lcrec as (thread, b, i, e): b / e = the number of sections
+   executed when the call began / when it ended, i = the position of the call's own section in the order of sections
+   (0: the call has none).  The section is executed after the call began and before it ended, and it is the calling
+   thread's; hence of two finished calls, the one that had ended when the other began has its section earlier — the
+   order of C03_every_execution_linearizes respects the real-time order of non-overlapping calls *)
+Theorem C03_calls_take_effect_between_their_ends :
+  forall progs sch fuel t b i e,
+    let s := fst (lrun fuel ls0 (lstart progs) sch) in
+    In (t, b, i, e) (lcrec s) -> i <> 0 ->
+    b < i /\ i <= e /\ e <= length (lsecs s) /\
+    exists sc r, nth_error (secs_of s) (i - 1) = Some sc /\ nth_error (rev (lsecs s)) (i - 1) = Some (t, sc, r).
+Proof. exact calls_take_effect_between_their_ends. Qed.
+Print Assumptions C03_calls_take_effect_between_their_ends.
+
+Theorem C03_real_time_order_is_respected :
+  forall progs sch fuel t1 b1 i1 e1 t2 b2 i2 e2,
+    let s := fst (lrun fuel ls0 (lstart progs) sch) in
+    In (t1, b1, i1, e1) (lcrec s) -> In (t2, b2, i2, e2) (lcrec s) -> i1 <> 0 -> i2 <> 0 ->
+    e1 <= b2 -> i1 < i2.
+Proof. exact real_time_order_is_respected. Qed.
+Print Assumptions C03_real_time_order_is_respected.
+
+Example C03_call_record_example :
+  rev (lcrec (fst (lrun 600 ls0 (lstart trav_progs) trav_sched))) =
+  [(0, 0, 1, 1); (0, 1, 2, 2); (0, 2, 3, 3); (1, 3, 4, 4); (1, 4, 5, 5); (0, 3, 0, 5)].
+Proof. vm_compute. reflexivity. Qed.
 
 (* a call's section stands between the call's first action and its end marker *)
 Theorem C03_section_inside_call :
@@ -156,6 +199,39 @@ Example C03_projection_example :
   fst (spec_secs 0 [] (secs_of (fst r))) = [1; 2; 3] /\
   snd (lc_run_case 400 proj_progs proj_sched) = [4; 2; 3].
 Proof. exact projection_example. Qed.
+
+(* ---------- the dispatcher: a family of lists (CLDisp.v) ---------- *)
+(* for EVERY sequence of dispatcher sections — appendListener & co. under listenerMutex (creating the event's list if there
+   is none), removeListener / ownsHandle / hasAnyListener on the list found — the list of every event is what the list
+   sections addressed to that event, in their order, make of the empty list (an absent list and an empty one cannot be
+   told apart), and the results are the list sections' results; so each event's list refines its own sequential
+   specification, whatever is done to the other events' lists *)
+From EV Require CLDisp.
+
+Theorem C03_dispatcher_is_a_family_of_lists :
+  forall l d e,
+    Forall CLDisp.dsec_wf l ->
+    CLDisp.dget (fst (CLDisp.drun d l)) e = fst (run_secs (CLDisp.dget d e) (CLDisp.secs_for e l)) /\
+    CLDisp.results_for e l (snd (CLDisp.drun d l)) = snd (run_secs (CLDisp.dget d e) (CLDisp.secs_for e l)).
+Proof. exact CLDisp.dispatcher_is_a_family_of_lists. Qed.
+Print Assumptions C03_dispatcher_is_a_family_of_lists.
+
+Theorem C03_every_event_list_refines_its_spec :
+  forall l e,
+    Forall CLDisp.dsec_wf l -> Forall sec_counter_ok (CLDisp.secs_for e l) ->
+    GInv (CLDisp.dget (fst (CLDisp.drun CLDisp.d0 l)) e) (fst (spec_secs 0 [] (CLDisp.secs_for e l))) /\
+    CLDisp.results_for e l (snd (CLDisp.drun CLDisp.d0 l)) = snd (spec_secs 0 [] (CLDisp.secs_for e l)).
+Proof. exact CLDisp.every_event_list_refines_its_spec. Qed.
+Print Assumptions C03_every_event_list_refines_its_spec.
+
+Example C03_dispatcher_example :
+  let l := [CLDisp.DAdd 7 (SBack 1 1%N); CLDisp.DAdd 9 (SBack 2 2%N); CLDisp.DAdd 7 (SFront 3 3%N); CLDisp.DOn 7 (SRemove (Some 0));
+            CLDisp.DOn 4 (SRemove (Some 0)); CLDisp.DOn 9 (SEmpty); CLDisp.DOn 4 (SEmpty)] in
+  snd (CLDisp.drun CLDisp.d0 l) = [true; true; true; true; false; false; true] /\
+  CLDisp.secs_for 7 l = [SBack 1 1%N; SFront 3 3%N; SRemove (Some 0)] /\
+  fst (spec_secs 0 [] (CLDisp.secs_for 7 l)) = [1] /\ fst (spec_secs 0 [] (CLDisp.secs_for 9 l)) = [0] /\
+  fst (CLDisp.drun CLDisp.d0 l) 4 = None.
+Proof. exact CLDisp.dispatcher_example. Qed.
 
 (* non-vacuity: an interleaving in which thread 1 removes the node thread 0's traversal stands on *)
 Example C03_example :
